@@ -143,6 +143,11 @@ def gen(shard, rng, tier):
                 if n == 130:
                     t = t[:-2] + rng.choice(["1b", "1c"])
                 yield from both(lib_case("parse", {"op": "sig.parse", "text": t}, {"cls": "length-%d" % n}))
+        for n in (130 + 512, 130 + 2 * 65536, 128 + 512, 132 + 512):
+            # text lengths equal to a legal one modulo 512 / 2^17 characters (65 bytes + 256 k)
+            for pre in ("", "0x"):
+                for t in (good[2:] + "".join(rng.choice(HEX) for _ in range(n - 130)), "".join(rng.choice(HEX) for _ in range(n - 130)) + good[2:]):
+                    yield from both(lib_case("parse", {"op": "sig.parse", "text": pre + t[:n]}, {"cls": "length-%d" % n}))
         for vb in range(256):
             yield lib_case("parse", {"op": "sig.parse", "text": good[:-2] + "%02x" % vb}, {"cls": "v-byte"}, "dev" if vb % 2 else "release")
         scal = [0, 1, N - 1, N, N + 1, 2**256 - 1, secp.HALF_N, secp.HALF_N + 1, 2**255]
